@@ -501,3 +501,67 @@ FACETS = [
     Facet('np/copy-histories', f_copy, strategy=lambda t: st_copy(3 if t == 'quick' else 4), examples={'quick': 2000, 'thorough': 100000}, shards={'quick': 3, 'thorough': 12}),
     Facet('torch/copy', f_torch_copy, strategy=lambda t: st_torch_copy(3), examples={'quick': 200, 'thorough': 8000}, backend='torch'),
 ]
+
+
+# ------------------------------------------------------------------ query histories: an answer depends on the state, not on what was asked before
+from checks import stateops as SO
+from checks.c13 import norm as _norm, same as _same
+
+
+def _queries(S, d):
+    """deterministic read-only questions a state answers; returns normalised values."""
+    Bk = B.NP
+    N = S.N
+    out = {}
+    L, K = ref.parse_list(d['obs'], N)
+    K = (K // 2) * 2
+    out['density_matrix'] = _norm(S.density_matrix, Bk)
+    out['expect-list'] = _norm(S.expect(B.np_list(L, K)), Bk)
+    out['expect-poly'] = _norm(S.expect(B.np_poly(L, K, [complex(j + 1, j) for j in range(len(K))])), Bk)
+    out['entropy'] = _norm(S.entropy(d['region']), Bk)
+    out['to_map'] = _norm(S.to_map(), Bk)
+    out['repr'] = repr(S)
+    out['tokenize'] = _norm(S.tokenize(), Bk)
+    out['neg'] = _norm(-S, Bk)
+    out['to_qutip'] = _norm(np.asarray(S.to_qutip().full()), Bk)
+    if S.r == 0:
+        out['get_prob'] = _norm(S.get_prob(np.array(d['bits'], dtype=np.int_)), Bk)
+        out['overlap'] = _norm(S.expect(C.dec_state('np', {'rows': d['rows2'], 'r': d['r2']})[0]), Bk)
+    rng.seed_all(d['seed'])
+    out['sample'] = _norm(S.sample(3), Bk)
+    return out
+
+
+def f_query_history(case):
+    """one state object is asked every read-only question, changed in place, asked again, ...; after each round a *fresh* object holding the same
+    tableau (built from the raw arrays) is asked the same questions: the answers must agree (no answer may depend on earlier questions)."""
+    N = case['N']
+    d = case['desc']
+    S = SO.ctor(case['ctor'])
+    nchg = 0
+    for i, stp in enumerate([None] + case['steps']):
+        if stp is not None:
+            S = SO.apply_op(S, stp)
+            nchg += 1
+        l, k, r = B.check_tableau(S, 'step %d' % i)
+        asked = _queries(S, d)
+        F = pc.StabilizerState(np.array(S.gs, dtype=np.int_), np.array(S.ps, dtype=np.int_), int(S.r))
+        fresh = _queries(F, d)
+        for key in asked:
+            check(_same(asked[key], fresh[key]), 'after %d in-place changes (%s), %s asked of the long-lived object differs from the answer of a fresh object with the same tableau:\\n  long-lived %s\\n  fresh      %s' % (
+                nchg, [s['op'] for s in case['steps'][:i]], key, str(asked[key])[:300], str(fresh[key])[:300]), 'history-dependent-answer')
+    signonly = any(s['op'] in ('gate', 'rotate', 'transform') for s in case['steps'])
+    return {'nt': signonly and len(case['steps']) >= 2, 'labels': ['N=%d' % N, 'steps=%d' % len(case['steps'])]}
+
+
+def st_query_history(hiN):
+    def inner(N):
+        dd = SO.st_steps(N)
+        step = st.one_of(dd['rotate'], dd['transform'], dd['gate'], dd['gate'], dd['measure'], dd['circuit'])
+        desc = st.fixed_dictionaries({'obs': gen.st_pauli_list(N, 1, 4), 'region': st.lists(st.booleans(), min_size=N, max_size=N).map(lambda b: [i for i, x in enumerate(b) if x]),
+                                      'bits': st.lists(st.integers(0, 1), min_size=N, max_size=N), 'rows2': gen.st_clifford_rows(N), 'r2': st.integers(0, N), 'seed': gen.st_seed()})
+        return st.fixed_dictionaries({'N': st.just(N), 'ctor': SO.st_ctor(N), 'steps': st.lists(step, min_size=1, max_size=5), 'desc': desc})
+    return st.integers(1, hiN).flatmap(inner)
+
+
+FACETS.append(Facet('np/query-histories', f_query_history, strategy=lambda t: st_query_history(3), examples={'quick': 500, 'thorough': 20000}, shards={'quick': 2, 'thorough': 8}))
